@@ -5,7 +5,7 @@
    as_totals_body, gen_add_mix, run_convert are re-proved about what the code says now. *)
 From Coq Require Import QArith List String ZArith Permutation.
 Require Import IPV.C15.Ir IPV.C15.Units IPV.C15.Convert IPV.C15.ExecLemmas IPV.C15.ConvertBody IPV.C15.UnitsProofs
-               IPV.C15.ConvertSamples IPV.C15.Store IPV.C15.Mix IPV.C15.MixGen IPV.C15.MixGenSamples IPV.C15.Checker IPV.Gen.Gen_C15_engine.
+               IPV.C15.ConvertSamples IPV.C15.Store IPV.C15.Mix IPV.C15.MixGen IPV.C15.MixGenSamples IPV.C15.Homog IPV.C15.Dens IPV.C15.Checker IPV.Gen.Gen_C15_engine.
 Import ListNotations.
 Open Scope string_scope.
 Open Scope Q_scope.
@@ -156,6 +156,32 @@ Theorem mix_water_scaling : forall k cs, ~ k == 0 -> ~ sumf fw cs == 0 ->
   (forall e, x_tot a e == k * x_tot b e) /\ x_tc a == x_tc b /\ x_ph a == x_ph b.
 Proof. exact Mix.mix_water_scaling. Qed.
 Print Assumptions mix_water_scaling.
+
+(* ---------------- density and solution volume: the regenerated calc_dens ---------------- *)
+
+(* the scaling law behind the next three theorems: a syntactic homogeneity certificate is sound *)
+Theorem homogeneity_certificate_sound : forall ext c env e d, ~ c == 0 ->
+  degree ext e = Some d ->
+  evalq (scale_env ext c env) e == c ^ d * evalq env e.
+Proof. exact degree_sound. Qed.
+Print Assumptions homogeneity_certificate_sound.
+
+(* DENSITY IS INTENSIVE: scaling mass of water, total solute mass and total solute volume by a common
+   factor c leaves the expression the regenerated calc_dens assigns to density_x unchanged *)
+Theorem density_scale_invariant : forall (env : string -> Q) c, ~ c == 0 ->
+  evalq (scale_env dens_ext c env) dens_expr == evalq env dens_expr.
+Proof. exact Dens.density_scale_invariant. Qed.
+Print Assumptions density_scale_invariant.
+
+Theorem solution_mass_extensive : forall (env : string -> Q) c, ~ c == 0 ->
+  evalq (scale_env mass_ext c env) mass_expr == c * evalq env mass_expr.
+Proof. exact Dens.solution_mass_extensive. Qed.
+Print Assumptions solution_mass_extensive.
+
+Theorem solution_volume_extensive : forall (env : string -> Q) c, ~ c == 0 ->
+  evalq (scale_env vol_ext c env) vol_expr == c * evalq env vol_expr.
+Proof. exact Dens.solution_volume_extensive. Qed.
+Print Assumptions solution_volume_extensive.
 
 (* ---------------- the verified checker used on the implementation's output ---------------- *)
 
